@@ -247,7 +247,7 @@ Notation iseq_from := (iseq_from dec2f dec2d).
 
 (* one iteration, compression on or off *)
 Lemma print_iter_any a0 rest size prev t tmp cols cols1 bb cv :
-  Forall goodc (a0 :: rest) -> Z.of_nat (length (a0 :: rest)) < 2 ^ 31 ->
+  Forall (goodc o) (a0 :: rest) -> Z.of_nat (length (a0 :: rest)) < 2 ^ 31 ->
   (forall p, prev = Some p -> scalar p) ->
   convert_to_range o (a0 :: rest) size = cv -> cv <> CUnmod ->
   print_arg_val o (match cv with CYes c _ => c | _ => a0 :: rest end) cols prev = Some (t, tmp, cols1, bb) ->
@@ -261,7 +261,7 @@ Proof.
   intros Hg Hlen Hprev Hcv Hnu Hp. destruct (compress o) eqn:Ec.
   - exact (print_iter dec2f dec2d o Ec a0 rest size prev t tmp cols cols1 bb cv Hg Hlen Hprev Hcv Hnu Hp).
   - unfold convert_to_range in Hcv. rewrite Ec in Hcv. cbn [negb] in Hcv. rewrite !orb_true_r in Hcv. subst cv.
-    pose proof (Forall_inv Hg) as Hg0. destruct (goodc_facts a0 Hg0) as (Hs0 & _ & _).
+    pose proof (Forall_inv Hg) as Hg0. destruct (goodc_facts o a0 Hg0) as (Hs0 & _ & _).
     unfold print_arg_val in Hp. rewrite (pav_scalar o a0 rest cols prev 5 Hs0) in Hp.
     destruct (print_scalar o a0 cols) as [[[t' w'] c']|] eqn:Eps; [|discriminate]. inversion Hp; subst.
     destruct (goodc_tok dec2f dec2d o a0 cols t tmp cols1 Hg0 Eps) as (Htk & Hnd & Hw).
@@ -298,7 +298,7 @@ Definition sp4 : list Z := [32; 32; 32; 32].
 
 (* one iteration of the loop over the elements *)
 Lemma arr_step a0 rest prev i n acc (first bb : bool) wrt cols awtl fuel res :
-  Forall goodc (a0 :: rest) -> Z.of_nat (length (a0 :: rest)) < 2 ^ 31 ->
+  Forall (goodc o) (a0 :: rest) -> Z.of_nat (length (a0 :: rest)) < 2 ^ 31 ->
   n + 1 - i = Z.of_nat (length (a0 :: rest)) -> (forall p, prev = Some p -> scalar p) ->
   print_array_loop print_arg_val parr (S fuel) o (a0 :: rest) prev i n acc first bb wrt cols awtl = Some res ->
   exists its1 inc t (brk : bool) cols2 awtl2,
@@ -312,7 +312,7 @@ Proof.
   intros Hg Hlen Hn Hprev Hrun. cbn [print_array_loop] in Hrun.
   cbn [length] in Hn. replace (n <? i) with false in Hrun by lia.
   assert (Hty : hd_type (a0 :: rest) =? 97 = false)
-    by (pose proof (Forall_inv Hg) as Hg0; destruct a0; cbn in Hg0; try contradiction; reflexivity).
+    by (destruct (goodc_facts o a0 (Forall_inv Hg)) as (Hs0 & _); destruct a0; cbn in Hs0; try contradiction; reflexivity).
   destruct (convert_to_range o (a0 :: rest) (n + 1 - i)) as [|c kk|] eqn:Ecv; [| |discriminate].
   1: rewrite Hty in Hrun.
   2: destruct (conv_yes_head o _ _ _ _ Ecv) as (n0 & h0 & r0 & Ec0); rewrite Ec0 in Hrun;
@@ -336,7 +336,7 @@ Qed.
 
 (* the iterations after the first *)
 Lemma print_arr_loop_iseq : forall fuel elems prev i n acc bb wrt cols awtl text w c bb',
-  Forall goodc elems -> Z.of_nat (length elems) < 2 ^ 31 -> n + 1 - i = Z.of_nat (length elems) ->
+  Forall (goodc o) elems -> Z.of_nat (length elems) < 2 ^ 31 -> n + 1 - i = Z.of_nat (length elems) ->
   (forall p, prev = Some p -> scalar p) ->
   print_array_loop print_arg_val parr fuel o elems prev i n acc false bb wrt cols awtl = Some (text, w, c, bb') ->
   exists its sfx, text = acc ++ sfx /\ w = wrt + len sfx /\ bb' = bb /\
@@ -350,7 +350,7 @@ Proof.
   - destruct (arr_step a0 rest prev i n acc false bb wrt cols awtl fuel _ Hg Hlen Hn Hprev Hrun)
       as (its1 & inc & t & brk & cols2 & awtl2 & Hrange & Horig & Hit & Hsc & Hrun2).
     assert (Hl2 : length (skipn inc (a0 :: rest)) = (length (a0 :: rest) - inc)%nat) by apply skipn_length.
-    assert (Hg2 : Forall goodc (skipn inc (a0 :: rest)))
+    assert (Hg2 : Forall (goodc o) (skipn inc (a0 :: rest)))
       by (rewrite <- (firstn_skipn inc (a0 :: rest)) in Hg; now apply Forall_app in Hg as [_ Hg]).
     cbn [andb] in Hrun2. rewrite orb_false_r in Hrun2.
     apply IH in Hrun2; [|exact Hg2|rewrite Hl2; cbn [length] in *; lia|rewrite Hl2; cbn [length] in *; lia|exact Hsc].
@@ -364,7 +364,7 @@ Qed.
 
 (* the whole array *)
 Lemma print_array_iseq n ty elems cols blank text w c bb :
-  Forall goodc elems -> Z.of_nat (length elems) < 2 ^ 31 -> n = Z.of_nat (length elems) -> elems <> [] ->
+  Forall (goodc o) elems -> Z.of_nat (length elems) < 2 ^ 31 -> n = Z.of_nat (length elems) -> elems <> [] ->
   print_array print_arg_val parr o (VArr ty n :: elems) cols blank = Some (text, w, c, bb) ->
   exists its T, text = (if bb then sp4 else []) ++ 91 :: T ++ [93] /\ w = len text /\
     iseq_from false None its T /\ iorig its = elems /\ its <> [].
@@ -377,7 +377,7 @@ Proof.
   destruct (arr_step a0 rest None 1 n [91] true false 1 (cols + 1) _ _ _ Hg Hlen ltac:(lia) ltac:(discriminate) Eloop)
     as (its1 & inc & t & brk & cols2 & awtl2 & Hrange & Horig & Hit & Hsc & Hrun2).
   assert (Hl2 : length (skipn inc (a0 :: rest)) = (length (a0 :: rest) - inc)%nat) by apply skipn_length.
-  assert (Hg2 : Forall goodc (skipn inc (a0 :: rest)))
+  assert (Hg2 : Forall (goodc o) (skipn inc (a0 :: rest)))
     by (rewrite <- (firstn_skipn inc (a0 :: rest)) in Hg; now apply Forall_app in Hg as [_ Hg]).
   cbn [andb orb] in Hrun2.
   apply print_arr_loop_iseq in Hrun2;
@@ -518,7 +518,7 @@ Qed.
 (* the round trip of an array of values of one type: the scanner gives an array
    whose elements expand to the original elements *)
 Theorem roundtrip_array o ty elems text w :
-  Forall goodc elems -> homog elems -> Z.of_nat (length elems) + 1 < 2 ^ 31 ->
+  Forall (goodc o) elems -> homog elems -> Z.of_nat (length elems) + 1 < 2 ^ 31 ->
   print_arg_vals o (VArr ty (Z.of_nat (length elems)) :: elems) 0 = Some (text, w) ->
   exists ty' slots,
     w = len text /\
@@ -576,14 +576,14 @@ End One.
 (* an array with an elided run, a plain value and a constant run; linelength 20
    puts line breaks inside *)
 Definition example_elems : list av := map VI [1; 2; 3; 4; 5; 6; 9; 8; 8; 8; 8; 8; 8].
-Lemma roundtrip_array_example :
-  Forall goodc example_elems /\ homog example_elems /\
+Lemma roundtrip_array_example : forall o,
+  Forall (goodc o) example_elems /\ homog example_elems /\
   exists w, print_arg_vals {| lossless := true; prec := 2; linelength := 20; compress := true |}
     (VArr 105 (Z.of_nat (length example_elems)) :: example_elems) 0
   = Some ([91; 49; 32; 46; 46; 46; 32; 54; 32; 57; 32; 54; 120; 56; 93], w).
 Proof.
-  split; [|split].
-  - unfold example_elems. cbn [map]. repeat constructor; cbn; lia.
+  intros o. split; [|split].
+  - unfold example_elems. cbn [map]. repeat (constructor; [left; cbn; unfold small_k, good_k; lia|]). constructor.
   - intros a b Ha Hb. unfold example_elems in *. apply in_map_iff in Ha as (x & <- & _).
     apply in_map_iff in Hb as (y & <- & _). reflexivity.
   - eexists. vm_compute. reflexivity.
